@@ -99,7 +99,14 @@ def random_doc_input(rng, algo, max_obj=5, max_sp=4):
     case = {"kind": "cli", "algo": algo, "style": style, "data": data, "leafmap": leafmap, "costs": gen.random_cost(rng), "given_map": give_map}
     if SC.kind_of(algo) != "plain" or rng.random() < 0.2:
         ordered = SC.kind_of(algo) == "ordered"
-        data["leaf_syntenies"] = gen.random_syntenies(rng, leaves, 3, ordered=ordered or SC.kind_of(algo) == "plain", consistent_p=1.0)
+        syn = gen.random_syntenies(rng, leaves, 3, ordered=ordered or SC.kind_of(algo) == "plain", consistent_p=1.0)
+        if rng.random() < 0.6:
+            # realistic gene-family names: digit-leading and letter-leading ones mixed, embedded numbers, underscores
+            pool = rng.sample(["cas1", "cas2", "cas10", "16S", "23S", "7b", "b10", "b9", "g_1", "Z", "rpoB", "5"], 3)
+            ren = {f"f{i}": pool[i] for i in range(3)}
+            syn = {g: [ren[f] for f in fs] for g, fs in syn.items()}
+            case["family_names"] = "realistic"
+        data["leaf_syntenies"] = syn
     if algo == "lca":
         case["costs"]["hgt"] = "inf"
     return case
